@@ -33,12 +33,12 @@ from . import common
 
 SPEC = {
     "lean": ["SnowModel.Props.C08", "SnowModel.Props.C08Bridge"],
-    "pins": ["OutputStreams", "OutputApi", "OutputSchema"],
+    "pins": ["OutputStreams", "OutputApi", "OutputSchema", "OutputGenerate"],
     "harness": "harness.c08",
     "budget": {"quick": 600, "thorough": 1500},
     "technique": "Lean 4 theorems over a DB buffer machine (conservation invariant for every write sequence, thresholds, table set and unbindable-row predicate), total encoder tables, schema inference and multiplexing + pins regenerated from the AST (thresholds, modulo tests, encoder dict per class resolved through the hierarchy, flatten, close handler, statement text of the mirrored methods) + differential runs (cleanup, DB op traces, schema, end-to-end decode of every artefact)",
     "level_text": "Machine-checked proof that the buffer/flush/commit bookkeeping of the database stream commits exactly the written rows of every table of the schema, in order, for every write sequence, every pair of thresholds and every initial counter; that a failing close loses exactly the buffered rows; that every stream class has an applicable encoder and an accepting sink for every value of the universe; that the inferred schema covers every key of every row; that multiplexing is pointwise writing. The model is tied to the source by bridging lemmas over pins regenerated on every run and by differential runs against the real classes and the public entry point.",
-    "level_note": "Trusted: Lean kernel; py2lean; the harness and its decoders; csv/json/sqlite3/SQLAlchemy and the Python renderings str()/isoformat()/repr() (carried as strings in the model). Control flow of the mirrored methods is pinned as text and tied by correspondence. Floats are compared only on short dyadic values. D15 (close errors swallowed) is a finding: the full statement is refuted by a witness and proved under explicit hypotheses. D16 (CSV header lacked _sf_update_key) was repaired by bc0f717: csv_header_covers_rows is proved at full strength and its input runs as a regression case.",
+    "level_note": "Trusted: Lean kernel; py2lean; the harness and its decoders; csv/json/sqlite3/SQLAlchemy and the Python renderings str()/isoformat()/repr() (carried as strings in the model). Control flow of the mirrored methods is pinned as text and tied by correspondence. Floats are compared only on short dyadic values. D15 (final batch written only by close(), whose errors are swallowed) was repaired by 043066e (generate commits before success; Multiplex closes every stream): close_reports and mux_close_reaches_all are proved at full strength, the old behaviour is kept as an explicit model parameter. D15b (residual: the SQL dump is still written by close(); an encoding error of the text file is swallowed) is a finding. D16 (CSV header lacked _sf_update_key) was repaired by bc0f717: csv_header_covers_rows is proved at full strength and its input runs as a regression case.",
     "assumptions": [
         "csv.DictWriter/csv.reader, json.dumps/json.loads and sqlite3/SQLAlchemy round-trip text, integers within 64 bits and NULL exactly",
         "a flush is one transaction: a row sqlite cannot bind fails the whole flush (observed; modelled as all-or-nothing)",
@@ -318,6 +318,12 @@ def real_db(case):
                 err = f"{type(e).__name__}: {str(e)[:120]}"
                 break
         committed = {}
+        if outcome is None and case.get("pre", True):
+            # what generate() does once the interpreter is done (fix 043066e)
+            try:
+                outer.commit()
+            except Exception as e:  # noqa
+                outcome = "commitFailed"
         if outcome is None:
             try:
                 outer.close()
@@ -337,7 +343,7 @@ def real_db(case):
             con = sqlite3.connect(":memory:")
             if outcome == "closed":
                 con.executescript(text.getvalue())
-        if outcome != "writeFailed":
+        if outcome not in ("writeFailed", "commitFailed"):
             for t in known:
                 try:
                     committed[t] = [r[0] for r in con.execute(f'select id from "{t}" order by rowid').fetchall()]
@@ -382,7 +388,8 @@ def gen_db_case(rng, limits, tier):
         ws[-1][1] = True  # unbindable row in the final batch: the D15 shape
     if rng.random() < 0.1 and ws:
         ws[rng.randrange(len(ws))][1] = True
-    return {"kind": "db", "stream": stream, "known": known, "fl": fl, "cl": cl, "ws": ws}
+    # pre: drive the stream as generate() does now (commit, then close) or as before the fix (close only)
+    return {"kind": "db", "stream": stream, "known": known, "fl": fl, "cl": cl, "ws": ws, "pre": rng.random() < 0.7}
 
 
 def check_db(cases, rep):
@@ -391,8 +398,8 @@ def check_db(cases, rep):
         r = real_db(case)
         reals.append(r)
         reqs.append({"m": "c08.db", "count0": r["count0"], "fl": r["fl"],
-                     "cl": r["cl"] if case["stream"] == "sqlDb" else 0,  # SqlText: inherited no-op commit
-                     "known": case["known"], "ws": case["ws"]})
+                     "cl": r["cl"],  # SqlTextOutputStream.commit delegates to the inner stream (fix 043066e)
+                     "pre": bool(case.get("pre", True)), "known": case["known"], "ws": case["ws"]})
     res = common.model_batch(reqs)
     for case, r, (st, m) in zip(cases, reals, res):
         n = len(case["ws"])
@@ -410,11 +417,16 @@ def check_db(cases, rep):
             rep.count("db:with-unknown-table")
         code = {"outcome": r["outcome"]}
         model = {"outcome": m.get("outcome")} if st == "ok" else {"err": m}
-        if r["outcome"] != "writeFailed":
+        if case.get("pre", True):
+            rep.count("db:commit-before-close")
+            if r["outcome"] == "closeFailed":
+                rep.violation(f"C08:close-fails-after-commit:{case['stream']}",
+                              f"{CLS_PY[case['stream']]}.close() raised although commit() had just succeeded", _small(case), "closed", "closeFailed")
+        if r["outcome"] not in ("writeFailed", "commitFailed"):
             code["committed"] = r["committed"] if r["committed"] is not None else (m.get("committed") and {t: m["committed"].get(t) for t in case["known"]})
             code["log"] = r["log"]
             code["count"] = r["count"]
-            if st == "ok" and m.get("outcome") != "writeFailed":
+            if st == "ok" and m.get("outcome") not in ("writeFailed", "commitFailed"):
                 model["committed"] = {t: m["committed"].get(t) for t in case["known"]}
                 model["log"] = m["log"]
                 model["count"] = m["count"]
@@ -465,6 +477,53 @@ def _small_res(r):
     if isinstance(r.get("log"), list) and len(r["log"]) > 40:
         r["log"] = r["log"][:20] + ["…"] + r["log"][-20:]
     return r
+
+
+# ------------------------------------------------------------------ mux cases
+
+
+def real_mux_close(oks):
+    """A real MultiplexOutputStream over stub streams whose close() succeeds / raises."""
+    os_ = _os()
+    closed = []
+
+    def mk(i, ok):
+        class Stub(os_.OutputStream):
+            def write_single_row(self, tablename, row):
+                pass
+
+            def close(self, **kw):
+                closed.append(i)
+                if not ok:
+                    raise RuntimeError(f"close of stream {i} failed")
+
+        return Stub(None)
+
+    mux = os_.MultiplexOutputStream([mk(i, ok) for i, ok in enumerate(oks)])
+    try:
+        mux.close()
+        raised = False
+    except RuntimeError:
+        raised = True
+    return {"closed": [(oks[i] if i in closed else None) for i in range(len(oks))], "raises": raised}
+
+
+def check_mux(cases, rep):
+    res = common.model_batch([{"m": "c08.muxclose", "oks": c["oks"], "goOn": True} for c in cases])
+    for case, (st, m) in zip(cases, res):
+        code = real_mux_close(case["oks"])
+        rep.case(case, nontrivial=len(case["oks"]) >= 2)
+        rep.traces_validated += 1
+        rep.count("mux:close:" + ("all-ok" if all(case["oks"]) else "some-raise"))
+        if st != "ok" or m != code:
+            rep.disagreement("c08.muxclose", case, m, code)
+        # direct oracle: every stream is closed; the error is not lost
+        if None in code["closed"]:
+            rep.violation("C08:mux-close-skips-streams",
+                          f"MultiplexOutputStream.close() left stream(s) {[i for i, c in enumerate(code['closed']) if c is None]} unclosed after the close of an earlier stream raised",
+                          case, [bool(x) for x in case["oks"]], code["closed"])
+        if code["raises"] != (not all(case["oks"])):
+            rep.violation("C08:mux-close-loses-error", "MultiplexOutputStream.close() raised iff-no-stream-failed is violated", case, not all(case["oks"]), code["raises"])
 
 
 # ------------------------------------------------------------------ recipes (schema + e2e)
@@ -810,7 +869,14 @@ def run_e2e(case):
     files = []
     handles = {}
     for i, fmt in enumerate(cfg.get("files", [])):
-        if cfg.get("as_handles"):
+        if cfg.get("ascii_handle"):
+            # a text file that cannot encode every character (what a non-UTF-8 locale gives to path outputs)
+            p = os.path.join(tmp, f"o{i}.{fmt}")
+            h = open(p, "w", encoding="ascii")
+            handles[i] = h
+            files.append(h)
+            arte.append((f"{fmt}{i}", fmt, p))
+        elif cfg.get("as_handles"):
             h = io.StringIO()
             handles[i] = h
             files.append(h)
@@ -821,7 +887,7 @@ def run_e2e(case):
             arte.append((f"{fmt}{i}", fmt, p))
     if files:
         kw["output_files"] = files
-        if cfg.get("as_handles"):
+        if cfg.get("as_handles") or cfg.get("ascii_handle"):
             kw["output_format"] = cfg["files"][0]
     if cfg.get("csv"):
         kw["output_format"] = "csv"
@@ -844,6 +910,12 @@ def run_e2e(case):
             out["error"] = f"{type(e).__name__}: {str(e)[:300]}"
     finally:
         api.generate = orig_generate
+    for h in handles.values():
+        if not isinstance(h, io.StringIO):
+            try:
+                h.close()
+            except Exception:  # noqa
+                pass
     out["echo"] = echo
     out["rows"] = tees[0].rows if tees else []
     out["tables"] = tees[0].tables if tees else None
@@ -976,6 +1048,8 @@ def check_e2e(case, rep, mc, res=None):
             bind = "too large to convert to SQLite" in err
             if bind:
                 rep.count("e2e:reported-bind-error")
+            elif "codec can't encode" in err:
+                rep.count("e2e:reported-encoding-error")  # the configured text file cannot hold the character; reported
             else:
                 # is it the recipe (fails with a capture-only stream too) or the output?
                 base = common.run_recipe(res["recipe"], reps=1)
@@ -990,7 +1064,12 @@ def check_e2e(case, rep, mc, res=None):
     per_table = {}
     for t, fields in rows:
         per_table.setdefault(t, []).append(fields)
-    sig_loss = "C08:close-error-swallowed" if closed_badly else None
+    sig_loss = None
+    if closed_badly:
+        # cause class of the swallowed close error: writing the SQL dump into a text file that cannot
+        # encode a character (D15b) is a different defect from a failing final flush (D15)
+        enc = any("Could not close" in m and "codec can't encode" in m for m in res["echo"])
+        sig_loss = "C08:close-error-swallowed:text-encoding" if enc else "C08:close-error-swallowed"
     pending = []  # (name, fmt, table, row index, key, observed cell, raw value, model key)
     for name, (fmt, art) in res["artefacts"].items():
         def lost(what, expected=None, observed=None, kind="rows-lost"):
@@ -1148,6 +1227,13 @@ D16_RECIPE = """- object: A
     name: x
 """
 
+UNICODE_RECIPE = """- snowfakery_version: 3
+- object: A
+  count: 3
+  fields:
+    name: "snow \\u2603 man"
+"""
+
 FIXED_E2E = [
     # D15 shapes: unbindable value in the final batch
     {"kind": "e2e", "recipe": D15_RECIPE, "cfg": {"db": 1}},
@@ -1161,6 +1247,11 @@ FIXED_E2E = [
     {"kind": "e2e", "recipe": D16_RECIPE, "cfg": {"csv": True}},
     {"kind": "e2e", "recipe": D16_RECIPE, "cfg": {"db": 1, "csv": True}},
     {"kind": "e2e", "recipe": D16_RECIPE, "cfg": {"db": 1, "files": ["json", "sql", "txt"]}},
+    # D15b (residual): the SQL dump is written by close(); a text file that cannot encode a character
+    {"kind": "e2e", "recipe": UNICODE_RECIPE, "cfg": {"files": ["sql"], "ascii_handle": True}},
+    # the same file for the formats that write while the run can still fail / escape non-ASCII
+    {"kind": "e2e", "recipe": UNICODE_RECIPE, "cfg": {"files": ["txt"], "ascii_handle": True}},
+    {"kind": "e2e", "recipe": UNICODE_RECIPE, "cfg": {"files": ["json"], "ascii_handle": True}},
     # no rows at all
     {"kind": "e2e", "recipe": "- snowfakery_version: 3\n- object: A\n  count: 0\n  fields:\n    a: 1\n", "cfg": {"db": 1, "files": ["json", "sql", "txt"]}},
     {"kind": "e2e", "recipe": "- snowfakery_version: 3\n- object: A\n  count: 0\n  fields:\n    a: 1\n", "cfg": {"csv": True}},
@@ -1208,8 +1299,12 @@ def run(ctx, rep, findings):
         for n in (fl - 1, fl, fl + 1, 2 * fl + 1):
             dbcases.append({"kind": "db", "stream": stream, "known": ["A", "B"], "fl": None, "cl": None,
                             "ws": [["A" if i % 3 else "B", False] for i in range(n)]})
-        # D15 shape on the stream itself
-        dbcases.append({"kind": "db", "stream": stream, "known": ["A"], "fl": None, "cl": None, "ws": [["A", False], ["A", True], ["A", False]]})
+        # D15 shape on the stream itself, driven as generate() does now (pre) and as before the fix
+        for pre in (True, False):
+            dbcases.append({"kind": "db", "stream": stream, "known": ["A"], "fl": None, "cl": None, "pre": pre,
+                            "ws": [["A", False], ["A", True], ["A", False]]})
+            dbcases.append({"kind": "db", "stream": stream, "known": ["A", "B"], "fl": None, "cl": None, "pre": pre,
+                            "ws": [["A", False]] * (fl + 5) + [["B", True]] + [["A", False]] * 3})
         dbcases.append({"kind": "db", "stream": stream, "known": ["A"], "fl": None, "cl": None,
                         "ws": [["A", False]] * (fl + 5) + [["A", True]] + [["A", False]] * 3})
         dbcases.append({"kind": "db", "stream": stream, "known": ["A"], "fl": None, "cl": None,
@@ -1226,6 +1321,12 @@ def run(ctx, rep, findings):
         if ctx.time_left() < 60:
             rep.notes.append("db cases stopped early: time budget")
             break
+
+    # 4b. MultiplexOutputStream.close over stub streams
+    muxcases = [{"kind": "mux", "oks": oks} for oks in ([], [True], [False], [False, True], [True, False, True], [False, False, True])]
+    for _ in range(ctx.scale(60, 600)):
+        muxcases.append({"kind": "mux", "oks": [ctx.rng.random() < 0.6 for _ in range(ctx.rng.randint(1, 6))]})
+    check_mux(muxcases, rep)
 
     # 5. end to end
     totals = [0, 1, 2, 3, 5, 8, 13, 21, 40]
@@ -1257,6 +1358,8 @@ def _dispatch(case, rep, mc):
         check_db([_expand(case)], rep)
     elif k == "schema":
         check_schema([case["spec"]], rep)
+    elif k == "mux":
+        check_mux([case], rep)
     elif k == "enc":
         pass  # enc cases are regenerated wholesale (values are not JSON-serialisable as such)
 
